@@ -276,6 +276,10 @@ def run(chk):
         gp.append((w, sep))
         if rng.random() < 0.05:
             gp.append((malform(w), sep))
+    # concatenations of written glycan strings and repeated names (repeated names accumulate since fix 4cd4abe)
+    for _ in range(len(glys) // 4):
+        gp.append((pt.write_glycan_formula(rng.choice(glys)) + pt.write_glycan_formula(rng.choice(glys)), ''))
+    gp += [(s, '') for s in ['Hex1Hex2', 'Hex2Fuc1Hex3', 'HexHexHex', 'Hex1.5Hex-1.5', 'HexNAc2Hex3HexNAc1']]
     gp += [(s, '') for s in ['HexNAc2Hex3Neu1', 'HexNAc2.2Hex3.9Neu', 'HexNAc-2Hex3Neu-1', '', 'HexXX', 'Hex2.1.', 'Hex2Hex3', 'Neu5Ac', 'Neu5Ac2',
                              'Neu5', 'Hex+2', 'Hex+-2', 'Hex.5', 'Hex1e3', 'hex', 'HexNAc(S)2', 'en,a-Hex1', 'PS', 'P2S', 'SP', 'Sulf', 'Sulfate',
                              'AcAcetyl', 'AcetylAc', 'dHexd-Hex', 'HexHexNAc', 'HexN', 'HexNAc', 'HexNS', 'HexNAcHexN']]
@@ -444,6 +448,48 @@ def run(chk):
         if abs(pt.glycan_mass(ren) - pt.glycan_mass(g)) > 1e-9:
             return f'glycan_mass({ren}) differs from glycan_mass({g})'
         return None
+
+    def unambiguous_items(items):
+        text = ''.join(k + '%s' % (v,) for k, v in items)
+        pos = 0
+        for k, v in items:
+            t = '%s' % (v,)
+            if any(len(nm) > len(k) and text[pos:].startswith(nm) for nm in names_all):
+                return False
+            after = text[pos + len(k) + len(t):]
+            if after and (after[0].isdigit() or after[0] in '+-.'):
+                return False
+            pos += len(k) + len(t)
+        return all(positional(v) for _, v in items)
+
+    def o_glycan_additive(c):
+        g1, g2 = c
+        items = list(g1.items()) + list(g2.items())
+        if not items or not unambiguous_items(items):
+            return None
+        w1, w2 = pt.write_glycan_formula(g1), pt.write_glycan_formula(g2)
+        exp = dict(g1)
+        for k, v in g2.items():
+            exp[k] = exp.get(k, 0) + v
+        got = pt.parse_glycan_formula(w1 + w2)
+        if set(got) != set(exp) or any(abs(got[k] - exp[k]) > 1e-9 for k in exp):
+            return f'parse_glycan_formula({w1!r} + {w2!r}) = {got}, expected the sum {exp}'
+        for mono in (True, False):
+            m12 = pt.glycan_mass(w1 + w2, monoisotopic=mono)
+            ms = pt.glycan_mass(g1, monoisotopic=mono) + pt.glycan_mass(g2, monoisotopic=mono)
+            if abs(m12 - ms) > 1e-6 * max(1, abs(ms)):
+                return f'glycan_mass({w1 + w2!r}, mono={mono}) = {m12}, the parts weigh {ms}'
+        c12 = pt.glycan_comp(w1 + w2)
+        cs = dict(pt.glycan_comp(g1)) if g1 else {}
+        for k, v in (pt.glycan_comp(g2) if g2 else {}).items():
+            cs[k] = cs.get(k, 0) + v
+        if set(c12) != set(cs) or any(abs(c12[k] - cs[k]) > 1e-6 * max(1, abs(cs[k])) for k in cs):
+            return f'glycan_comp({w1 + w2!r}) = {c12}, the parts give {cs}'
+        return None
+
+    gpairs = [(rng.choice(glys), rng.choice(glys)) for _ in range(1500 if not big else 30000)]
+    gpairs += [({'Hex': 1}, {'Hex': 2}), ({'Hex': 2, 'Fuc': 1}, {'Hex': 3}), ({'HexNAc': 2}, {'HexNAc': 1.5, 'Hex': -1})]
+    chk.oracle('glycan_additive', gpairs, o_glycan_additive, nontrivial_fn=lambda c: len(c[0]) >= 1 and len(c[1]) >= 1, key_fn=repr)
 
     chk.oracle('glycan_roundtrip_linear', glys if big else glys[::2], o_glycan, nontrivial_fn=lambda g: len(g) >= 2, key_fn=repr)
     lap('oracle')
